@@ -287,10 +287,12 @@ def strata(seed):
                        params=dict(mu=[edge, 0.5], sigma=[0.1, 0.1])),
              cfg=dict(base, pool='spool2'),
              base_seed=int(rng.integers(0, 10 ** 6))),
-        # two modes with forced multi-ellipsoid outer bounds
+        # two modes three sigma apart with forced multi-ellipsoid outer
+        # bounds: the ellipsoids of the union overlap in the shells that
+        # carry the evidence (1/multiplicity correction, rejection counters)
         dict(spec=dict(d=2, family='twosum', blob='none', prior='identity',
-                       params=dict(mu=[0.72, 0.72], mu2=[0.25, 0.25],
-                                   sigma=[0.05, 0.05], off2=-0.5)),
+                       params=dict(mu=[0.6, 0.6], mu2=[0.47, 0.47],
+                                   sigma=[0.06, 0.06], off2=0.0)),
              cfg=dict(base, n_live=600, split_threshold=1),
              base_seed=int(rng.integers(0, 10 ** 6))),
     ]
